@@ -31,6 +31,7 @@ import (
 	"sync"
 	"time"
 
+	eth2p0 "github.com/attestantio/go-eth2-client/spec/phase0"
 	k1 "github.com/decred/dcrd/dcrec/secp256k1/v4"
 	"github.com/libp2p/go-libp2p/core/host"
 	"github.com/libp2p/go-libp2p/core/peerstore"
@@ -51,6 +52,9 @@ import (
 type genr struct {
 	idx     int
 	n, t    int
+	nv      int // validators of this generation
+	appended int // validators added by the append that made this generation (0 otherwise)
+	files   [][][]eth2p0.DepositData // deposit-data files per node (append generations)
 	keys    []*k1.PrivateKey // operator keys, in operator order
 	ids     []string         // symbolic operator names: o<i> original, a<i> added later
 	dirs    []string         // per operator: directory with cluster-lock.json, the p2p key, validator_keys
@@ -65,8 +69,8 @@ type genr struct {
 }
 
 func (ce *cer) gen0() *genr {
-	g := &genr{idx: 0, n: ce.c.n, t: ce.c.t, keys: ce.keys, lockRaw: ce.lockRaw, locks: ce.locks, lockErr: ce.lockErr,
-		sk: ce.sk, P: ce.P, valSeen: map[int]bool{}}
+	g := &genr{idx: 0, n: ce.c.n, t: ce.c.t, nv: ce.c.nv, keys: ce.keys, lockRaw: ce.lockRaw, locks: ce.locks, lockErr: ce.lockErr,
+		sk: ce.sk, P: ce.P, files: ce.files, valSeen: map[int]bool{}}
 	for i := 0; i < ce.c.n; i++ {
 		g.ids = append(g.ids, fmt.Sprintf("o%d", i))
 		g.dirs = append(g.dirs, path.Join(ce.dir, fmt.Sprintf("node%d", i)))
@@ -162,7 +166,7 @@ func (ce *cer) runProto(g *genr, o protoOp, timeout time.Duration) (*genr, []err
 	rng := hx.NewRng(o.sched)
 	root := path.Join(ce.dir, fmt.Sprintf("gen%d-%d", g.idx+1, rng.U64()%100000))
 	hx.Must(os.MkdirAll(root, 0o755))
-	ng := &genr{idx: g.idx + 1, valSeen: map[int]bool{}}
+	ng := &genr{idx: g.idx + 1, nv: g.nv, valSeen: map[int]bool{}}
 	// participants: (key dir, key, output position or -1)
 	type node struct {
 		dir string
@@ -362,7 +366,7 @@ func (ce *cer) loadGen(g *genr) bool {
 
 // protoMonitors: the new cluster against the group keys of generation 0 (independent of the repo's own checks).
 func (ce *cer) protoMonitors(run *hx.Run, old, g *genr, o protoOp) {
-	nv := ce.c.nv
+	nv := g.nv
 	for j := 0; j < g.n; j++ {
 		lock := g.locks[j]
 		if !bytes.Equal(g.lockRaw[j], g.lockRaw[0]) {
